@@ -81,25 +81,25 @@ def dispatch (info : PkgInfo) (conv : Conv) (outcome : Call → Int) : (fuel : N
             let r := dispatch info conv outcome fuel (rest.drop f.args.length)
             ⟨call :: r.calls, r.status, r.stop⟩
 
-/-- `lowerFirstWord` (ASCII) on characters: `(Aaaa)(Bbbb) → aaaaBbbb`, `(AAAA)(Bbbb) → aaaaBbbb`, else all lower -/
+/-- `lowerFirstWord` on characters (the regular expressions' `[[:upper:]]` is ASCII-only, `strings.ToLower` is not): `(Aaaa)(Bbbb) → aaaaBbbb`, `(AAAA)(Bbbb) → aaaaBbbb`, else all lower -/
 def lowerFirstWordL (cs : List Char) : List Char :=
   match cs with
   | [] => []
   | c :: rest =>
-    if !c.isUpper then cs.map Char.toLower
+    if !c.isUpper then cs.map goToLower
     else
       -- first regexp: one upper, then at least one non-upper, then an upper
       let nonUp := rest.takeWhile (fun x => !x.isUpper)
       let after := rest.dropWhile (fun x => !x.isUpper)
       if !nonUp.isEmpty && !after.isEmpty then
-        (c :: nonUp).map Char.toLower ++ after
+        (c :: nonUp).map goToLower ++ after
       else
         -- second regexp: a run of uppers, the last of which starts a word followed by a non-upper
         let ups := cs.takeWhile Char.isUpper
         let tail := cs.dropWhile Char.isUpper
         if ups.length ≥ 2 && !tail.isEmpty then
-          (ups.dropLast).map Char.toLower ++ (ups.drop (ups.length - 1)) ++ tail
-        else cs.map Char.toLower
+          (ups.dropLast).map goToLower ++ (ups.drop (ups.length - 1)) ++ tail
+        else cs.map goToLower
 
 def lowerFirstWord (s : String) : String := String.ofList (lowerFirstWordL s.toList)
 
